@@ -161,6 +161,19 @@ def ask(db, q):
             return dict(ok=dict(s=db.GetQuantityType(q["u"]) or ""))
         if k == "catInfo":
             return dict(ok=dict(ci=ci_fields(db.GetCategoryInfo(q["c"]))))
+        # --- asked on the real code only (oracle / search of C15; the model has no such query kinds)
+        if k == "isValidU":
+            return dict(ok=dict(b=bool(Scalar(q["x"], q["u"]).IsValid())))
+        if k == "infoU":
+            from barril.units import ObtainQuantity
+
+            qq = ObtainQuantity(q["u"])
+            return dict(ok=dict(cat=qq.GetCategory(), unit=qq.GetUnit(), ci=ci_fields(qq.GetCategoryInfo())))
+        if k == "quantityTypes":
+            return dict(ok=dict(l=list(db.GetQuantityTypes())))
+        if k == "checkQuantityType":
+            db.CheckQuantityType(q["qt"])
+            return dict(ok=None)
     except RecursionError:
         return dict(err="runtime")
     except Exception as e:
